@@ -115,6 +115,7 @@ class Collector(ast.NodeVisitor):
             elif isinstance(n, ast.AnnAssign) and isinstance(n.target, ast.Name) and (is_set_ann(n.annotation) or (n.value is not None and is_set_expr(n.value))):
                 self.set_locals[-1].add(n.target.id)
         self.scan_generator(node)
+        self.scan_closure_events(node)
         self.generic_visit(node)
         self.set_locals.pop()
         self.stack.pop()
@@ -133,6 +134,7 @@ class Collector(ast.NodeVisitor):
 
     def visit_Call(self, node):
         f = node.func
+        f._is_callee = True
         name = dotted(f)
         if isinstance(f, ast.Name):
             if f.id == "hash" and self.stack[-1:] != ["__hash__"]:
@@ -165,6 +167,14 @@ class Collector(ast.NodeVisitor):
                     self.add("setiter", f"random.{parts[1]}(list({ast.unparse(a.args[0])}))")
         self.generic_visit(node)
 
+    def visit_Attribute(self, node):
+        name = dotted(node)
+        if name:
+            parts = name.split(".")
+            if len(parts) >= 2 and (parts[-2], parts[-1]) in WALL and not getattr(node, "_is_callee", False):
+                self.add("wallclock_ref", name)
+        self.generic_visit(node)
+
     # -- C07: generators
     def scan_generator(self, fn):
         body_nodes = [n for n in ast.walk(fn) if not isinstance(n, (ast.FunctionDef, ast.AsyncFunctionDef, ast.Lambda)) or n is fn]
@@ -176,7 +186,7 @@ class Collector(ast.NodeVisitor):
         for n in ast.walk(fn):
             if isinstance(n, ast.Assign) and len(n.targets) == 1 and isinstance(n.targets[0], ast.Name):
                 src = ast.unparse(n.value)
-                if src.endswith(".now") or src in ("self.now", "self._clock.now") or ".now." in src or ".now +" in src or ".now -" in src:
+                if any(isinstance(x, ast.Attribute) and x.attr == "now" for x in ast.walk(n.value)):
                     now_names.setdefault(n.targets[0].id, []).append(n.lineno)
         for n in ast.walk(fn):
             if isinstance(n, ast.Call) and dotted(n.func) in ("Event", "Event.once"):
@@ -195,7 +205,14 @@ class Collector(ast.NodeVisitor):
                 if ".now" in tsrc and any(y > n.lineno for y in yields):
                     par = self.parent_stmt(fn, n)
                     if isinstance(par, (ast.Assign, ast.AugAssign, ast.Expr)) and not any(isinstance(x, (ast.Yield, ast.YieldFrom)) for x in ast.walk(par)):
-                        self.add("stale_now", f"Event(time={tsrc[:40]}) built before a later yield")
+                        # benign when the very next yield is a zero-delay `yield 0, [events]`
+                        # (emitted at the same instant it was built)
+                        nxt = min((y for y in ast.walk(fn) if isinstance(y, ast.Yield) and y.lineno > n.lineno and self.owner(fn, y)),
+                                  key=lambda y: y.lineno, default=None)
+                        zero_emit = (nxt is not None and isinstance(nxt.value, ast.Tuple) and nxt.value.elts
+                                     and isinstance(nxt.value.elts[0], ast.Constant) and nxt.value.elts[0].value in (0, 0.0))
+                        if not zero_emit:
+                            self.add("stale_now", f"Event(time={tsrc[:40]}) built before a later yield")
         for n in ast.walk(fn):
             if isinstance(n, ast.While):
                 for b in n.body:
@@ -204,6 +221,49 @@ class Collector(ast.NodeVisitor):
                             v = y.value.elts[0] if isinstance(y.value, ast.Tuple) and y.value.elts else y.value
                             if isinstance(v, ast.Constant) and v.value in (0, 0.0):
                                 self.add("spin", "while " + ast.unparse(n.test)[:50] + ": yield 0")
+
+    def scan_closure_events(self, fn):
+        """Events stamped with `.now` in `fn`, kept in a local, and emitted by a nested
+        generator after it has yielded (the stamp is stale by then)."""
+        nested = [n for n in ast.walk(fn) if n is not fn and isinstance(n, (ast.FunctionDef, ast.AsyncFunctionDef))]
+        gens = [g for g in nested if any(isinstance(y, (ast.Yield, ast.YieldFrom)) and self.owner(g, y) for y in ast.walk(g))]
+        if not gens:
+            return
+        holders = set()
+        for st in ast.walk(fn):
+            if any(st is x for g in nested for x in ast.walk(g)):
+                continue
+            calls = [c for c in ast.walk(st) if isinstance(c, ast.Call) and dotted(c.func) in ("Event", "Event.once")] if isinstance(st, ast.stmt) else []
+            stamped = any(any(isinstance(a, ast.Attribute) and a.attr == "now" for k in c.keywords if k.arg == "time" for a in ast.walk(k.value)) for c in calls)
+            if not stamped:
+                continue
+            if isinstance(st, ast.Assign):
+                holders |= {t.id for t in st.targets if isinstance(t, ast.Name)}
+            elif isinstance(st, ast.Expr) and isinstance(st.value, ast.Call) and isinstance(st.value.func, ast.Attribute) \
+                    and st.value.func.attr in ("append", "extend") and isinstance(st.value.func.value, ast.Name):
+                holders.add(st.value.func.value.id)
+        # propagate through  other.append(holder) / other.extend(holder) / other = holder / [holder, ...]
+        changed = True
+        while changed:
+            changed = False
+            for st in ast.walk(fn):
+                if any(st is x for g in nested for x in ast.walk(g)):
+                    continue
+                if isinstance(st, ast.Expr) and isinstance(st.value, ast.Call) and isinstance(st.value.func, ast.Attribute) \
+                        and st.value.func.attr in ("append", "extend") and isinstance(st.value.func.value, ast.Name):
+                    if any(isinstance(a, ast.Name) and a.id in holders for arg in st.value.args for a in ast.walk(arg)):
+                        if st.value.func.value.id not in holders:
+                            holders.add(st.value.func.value.id)
+                            changed = True
+                elif isinstance(st, ast.Assign) and any(isinstance(a, ast.Name) and a.id in holders for a in ast.walk(st.value)):
+                    for t in st.targets:
+                        if isinstance(t, ast.Name) and t.id not in holders:
+                            holders.add(t.id)
+                            changed = True
+        for g in gens:
+            used = {x.id for x in ast.walk(g) if isinstance(x, ast.Name)} & holders
+            for nm in sorted(used):
+                self.add("stale_now", f"events in '{nm}' stamped in the enclosing function, emitted by nested generator {g.name} after a yield")
 
     def owner(self, fn, node):
         # is `node` directly inside fn (not in a nested def)?
@@ -243,7 +303,7 @@ def extract(repo=None):
     return sites, nfiles
 
 
-C03_KINDS = ("hash", "id", "uuid", "wallclock", "urandom", "globalrandom", "setiter")
+C03_KINDS = ("hash", "id", "uuid", "wallclock", "wallclock_ref", "urandom", "globalrandom", "setiter")
 C07_KINDS = ("stale_now", "spin", "neg_time")
 
 
